@@ -934,3 +934,66 @@ func CanReachThreaded(pred, from, to, stop *ssa.BasicBlock) bool {
 	}
 	return rec(pred, from, map[*ssa.Phi]bool{})
 }
+
+// FlagSource: cond (through NOT) is a boolean flag merged from several edges and exactly
+// one edge can give it the truth value in question: the block that edge leaves, and the
+// index of the edge among the flag's incoming edges.
+func FlagSource(cond ssa.Value, truth bool) (*ssa.BasicBlock, int, bool) {
+	pb, _, _, ok := flagEdge(cond, truth)
+	if !ok {
+		return nil, 0, false
+	}
+	v := cond
+	for {
+		if u, isU := v.(*ssa.UnOp); isU && u.Op == token.NOT {
+			v = u.X
+			continue
+		}
+		break
+	}
+	phi := v.(*ssa.Phi)
+	for i, p := range phi.Block().Preds {
+		if p == pb {
+			return pb, i, true
+		}
+	}
+	return nil, 0, false
+}
+
+// ResolvePhi: v is a phi of a merge block M, and target is guarded by a flag of the same
+// block M that only one incoming edge of M can give its value (the `ok` of a
+// `value, ok` pair assigned together): on every path to target, v has the value that
+// edge delivers. Anything else is returned unchanged.
+func ResolvePhi(fn *ssa.Function, target *ssa.BasicBlock, v ssa.Value) ssa.Value {
+	phi, ok := v.(*ssa.Phi)
+	if !ok {
+		return v
+	}
+	for _, b := range fn.Blocks {
+		iff := BlockIf(b)
+		if iff == nil {
+			continue
+		}
+		for idx := 0; idx < 2; idx++ {
+			if !EdgeDominates(b, idx, target) {
+				continue
+			}
+			c := iff.Cond
+			for {
+				if u, isU := c.(*ssa.UnOp); isU && u.Op == token.NOT {
+					c = u.X
+					continue
+				}
+				break
+			}
+			fp, isPhi := c.(*ssa.Phi)
+			if !isPhi || fp.Block() != phi.Block() {
+				continue
+			}
+			if _, i, ok := FlagSource(iff.Cond, idx == 0); ok && i < len(phi.Edges) {
+				return phi.Edges[i]
+			}
+		}
+	}
+	return v
+}
